@@ -279,7 +279,7 @@ class Interp:
         if isinstance(it, IDict):
             return it.keys()
         if isinstance(it, ISet):
-            return list(it.elems)
+            return list(reversed(it.elems)) if CTX.set_reversed else list(it.elems)
         if isinstance(it, str):
             return list(it)
         if isinstance(it, Inst):
@@ -310,6 +310,11 @@ class Interp:
         for item in s.items:
             cm = self.ev(item.context_expr, env, mod)
             if isinstance(cm, Opaque) and cm.why == 'errstate':
+                continue
+            from .builtins_ import VFile
+            if isinstance(force(cm), VFile):
+                if item.optional_vars is not None:
+                    self.assign(item.optional_vars, force(cm), env, mod)
                 continue
             raise OutOfSubset('with-statement on ' + repr(cm))
         self.exec_block(s.body, env, mod)
